@@ -17,6 +17,7 @@ type intrinsicState struct {
 	gomaxprocs  value
 	clock       func(i *interpreter) value
 	clockReads  int
+	clockBase   int64
 	faults      map[string]int
 	faultsOn    bool
 	faultBudget int
@@ -223,6 +224,10 @@ func addIntrinsics(P *Program) {
 		}
 		return true
 	})
+	reg("AdvanceClock", func(i *interpreter, fr *frame, fn *ssa.Function, args []value) value {
+		i.clockBase += asInt64(args[0])
+		return nil
+	})
 	reg("Settle", func(i *interpreter, fr *frame, fn *ssa.Function, args []value) value { return nil })
 	reg("Symbolic", func(i *interpreter, fr *frame, fn *ssa.Function, args []value) value { return true })
 	// Try runs f and reports whether it panicked (target panics only).
@@ -249,6 +254,10 @@ func addIntrinsics(P *Program) {
 	})
 	reg("DeferGoroutines", func(i *interpreter, fr *frame, fn *ssa.Function, args []value) value {
 		i.deferSpawn = args[0].(bool)
+		return nil
+	})
+	reg("ForkGoroutineOrder", func(i *interpreter, fr *frame, fn *ssa.Function, args []value) value {
+		i.forkOrder = args[0].(bool)
 		return nil
 	})
 	reg("SelectFork", func(i *interpreter, fr *frame, fn *ssa.Function, args []value) value {
